@@ -11,6 +11,7 @@ import (
 	gogoproto "github.com/gogo/protobuf/proto"
 	golangproto "github.com/golang/protobuf/proto"
 	"os"
+	"os/exec"
 	"runtime"
 	"runtime/pprof"
 	"strings"
@@ -1189,6 +1190,7 @@ func Main(prop, level string, rule string, assumptions ...string) {
 	}
 	r := ev.Start(prop, level)
 	reportQuarantine(r)
+	genRacePass(r, prop)
 	if Pre != nil {
 		Pre(r)
 	}
@@ -1203,6 +1205,51 @@ func Main(prop, level string, rule string, assumptions ...string) {
 		r.Assume(a)
 	}
 	r.Finish()
+}
+
+// genRacePass: for the properties whose operations a template could make non-reentrant (C04, C06, C17) the freshly generated
+// code is exercised by several goroutines under the race detector (checks/gen/race_test.go). The cooperative explorer
+// cannot see plain memory shared through a package-level variable; the race detector and the result comparison can.
+func genRacePass(r *ev.Run, prop string) {
+	if prop != "C04" && prop != "C06" && prop != "C17" {
+		return
+	}
+	run := os.Getenv("VERIF_RUN_DIR")
+	if os.Getenv("VERIF_SKIP_RACE") != "" || run == "" || replayType != "" {
+		r.Set("race_pass", map[string]any{"sampling": true, "skipped": true})
+		return
+	}
+	tags, err := os.ReadFile(run + "/tags")
+	if err != nil {
+		r.Internal("race pass: %v", err)
+		return
+	}
+	cmd := exec.Command("go", "test", "-race", "-count=1", "-vet=off", "-tags", strings.TrimSpace(string(tags)), "-overlay", run+"/fm/overlay.json",
+		"./checks/gen", "-run", "TestGenRace", "-v", "-args", "-prop", prop, "-iters", ev.Pick(r, "150", "1500"))
+	cmd.Dir = ev.VerifDir() + "/mc"
+	cmd.Env = append(os.Environ(), "GOFLAGS=-mod=mod", "GOPROXY=off", "GOSUMDB=off", "GOTOOLCHAIN=local")
+	out, err := cmd.CombinedOutput()
+	s := string(out)
+	res := map[string]any{"sampling": true, "cmd": "go test -race ./checks/gen -run TestGenRace -args -prop " + prop}
+	clip := func(i int) string { return s[i:min(len(s), i+2500)] }
+	switch {
+	case strings.Contains(s, "DATA RACE"):
+		r.Fail(prop+"/race-detector-report", "free-running -race pass over the generated code", map[string]any{"report": clip(strings.Index(s, "WARNING: DATA RACE"))})
+		res["result"] = "DATA RACE"
+	case strings.Contains(s, "REENTRANCY-FAILURE"):
+		r.Fail(prop+"/race-pass/result-differs-from-sequential", "free-running -race pass over the generated code", map[string]any{"report": clip(strings.Index(s, "REENTRANCY-FAILURE"))})
+		res["result"] = "wrong result"
+	case err != nil:
+		r.Internal("race pass could not run: %v: %s", err, s[max(0, len(s)-1200):])
+	default:
+		res["result"] = "no race reported"
+		for _, l := range strings.Split(s, "\n") {
+			if strings.HasPrefix(l, "RACEPASS ") {
+				res["summary"] = l
+			}
+		}
+	}
+	r.Set("race_pass", res)
 }
 
 // reportQuarantine records which corpus cells could not be generated / compiled in this run: listed in the evidence
